@@ -164,6 +164,13 @@ def check_proj(run, S, name, spec, kw):
         # nothing: that is decided on the panic leaves below, `panic-justified`)
         hyp_ctx = path_hyps(S, guards)
         hyp_ctx.__enter__()
+        if which in ('perspective', 'planar'):
+            # on the documented domain (perspective: 0 < fovy < pi, planar: |fovy| < pi) cos(fovy/2) never vanishes, and
+            # sin(fovy/2) vanishes only where the specified matrix (cot(fovy/2)) does not exist either
+            import core as _core
+            from fractions import Fraction as _Fr
+            half_ = args[0] * El.c(_Fr(1, 2))
+            _core.ACTIVE_NONZERO.extend([A.fn('cos', half_), A.fn('sin', half_)])
         M = cv.val(leaf['v'])
         if table is not None:
             cmp_struct(run, S, name, M, table, 'K3 field conformance with the %s entry table' % {'ortho': 'glOrtho', 'frustum': 'glFrustum', 'perspective': 'glFrustum(symmetric window of half-height n tan(fovy/2))'}[which], where=where, tag='ret%d' % li)
